@@ -15,13 +15,15 @@ from . import _conn as K
 CLAUSES = ('owned-uncommitted', 'state-lost', 'stale', 'dirty-idle', 'serial', 'leftover', 'closed-joined')
 DEVS = ('InvalidateDoomed', 'LeakUnstored')        # the deviations whose clauses are this property's
 FOCUS = ('Finish', 'FinishThenFail', 'FailBeforeBegin', 'FailBegun', 'StoreRaises', 'StoreConflict', 'FailStored', 'FailVoted',
-         'CommitSpConflict', 'CommitSpRaises', 'SavepointRaises')
+         'CommitSpConflict', 'CommitSpRaises', 'SavepointRaises', 'CommitSpStoreRaises')
 NEED = ['Modify', 'Link', 'Unlink', 'AddExplicit', 'Load', 'Begin', 'Store', 'Stored', 'Vote', 'Finish', 'Abort', 'Close',
         'Reopen', 'OtherCommit', 'FailBeforeBegin', 'FailBegun', 'StoreRaises', 'StoreConflict', 'FailStored', 'FailVoted',
-        'FinishThenFail', 'Savepoint', 'CommitSp', 'SavepointRaises', 'CommitSpRaises']
+        'FinishThenFail', 'Savepoint', 'CommitSp', 'SavepointRaises', 'CommitSpRaises', 'CommitSpConflict',
+        'CommitSpStoreRaises']
 
 
-BUDGET = {'committed-objects': 40000, 'new-objects': 38000, 'with-savepoint': 38000, 'one-object': 34000}
+BUDGET = {'committed-objects': 36000, 'new-objects': 34000, 'with-savepoint': 34000, 'one-object': 30000,
+          'savepoint-commit-fails': 32000}
 
 
 def configs(q):
@@ -33,7 +35,13 @@ def configs(q):
                     Ops=('add', 'load', 'close', 'own', 'rm', 'free') if q else ('add', 'load', 'close', 'own', 'rm', 'free', 'other'))
     sp = cd.consts(Obj=('a', 'b'), Edges='EdgesFlat', MaxSp=1, MaxCommit=1, MaxAct=4, MaxTail=1,
                    Ops=('add', 'sp', 'rm', 'close', 'own') if q else ('add', 'sp', 'rm', 'close', 'own', 'load'))
-    return [('new-objects', new), ('committed-objects', pre), ('one-object', one), ('with-savepoint', sp)]
+    # a commit on the savepoint path failing at each record of the copy loop of _commit_savepoint: >= 2 records flushed
+    # by the savepoint (the root, the committed object a modified, the new object b), conflict raised by the real
+    # storage for r or a (second connection) or an injected store failure at the record of r, a or b
+    spc = cd.consts(Obj=('a', 'b'), Edges='EdgesFlat', Pre=('a',), MaxSp=1, MaxCommit=1, MaxOther=1, MaxAct=3 if q else 4, MaxTail=1,
+                    Ops=('sp', 'other', 'own') if q else ('sp', 'other', 'own', 'load'))
+    return [('new-objects', new), ('committed-objects', pre), ('one-object', one), ('with-savepoint', sp),
+            ('savepoint-commit-fails', spc)]
 
 
 def run(ctx):
